@@ -48,18 +48,18 @@ pub fn hs(m: &TlsMessageHandshake) -> MHs {
     }
 }
 
-/// a parsed ClientKeyExchange is always the opaque body; Dh/Ecdh (constructed values) are mapped to
-/// the body their RFC encoding has, tagged so that they never compare equal to an opaque body by accident
+/// a parsed ClientKeyExchange is always the opaque body (`Unknown`): the parsers never produce `Dh` / `Ecdh`, so when one of them shows
+/// up in a parsed value the model value is marked (a different variant is a different value, even if it would serialize to the same bytes)
 pub fn cke(c: &TlsClientKeyExchangeContents) -> Vec<u8> {
     match c {
         TlsClientKeyExchangeContents::Unknown(b) => b.to_vec(),
         TlsClientKeyExchangeContents::Dh(b) => {
-            let mut v = (b.len() as u16).to_be_bytes().to_vec();
+            let mut v = b"<variant Dh instead of the opaque body>".to_vec();
             v.extend_from_slice(b);
             v
         }
         TlsClientKeyExchangeContents::Ecdh(p) => {
-            let mut v = vec![p.point.len() as u8];
+            let mut v = b"<variant Ecdh instead of the opaque body>".to_vec();
             v.extend_from_slice(p.point);
             v
         }
